@@ -138,7 +138,8 @@ def run_property(prop, tier, *, jobs=None, only=None, verbose=False,
             kind = k.split(":", 1)[0]
             call_kinds[kind] = call_kinds.get(kind, 0) + v
         paths_total += r["paths"]
-        if not r["obligations"] and not r["fault"] and not r["undecided"]:
+        if not r["obligations"] and not r["fault"] and not r["undecided"] \
+                and not r.get("generated_any_prop"):
             # an instance that generates no obligation at all is vacuous
             undecided.append(f"{r['contract']}[{r['instance']}]: "
                              "zero obligations generated")
